@@ -126,6 +126,8 @@ class TokenFlow:
         if k in CTORS:
             if len(st["args"]) == 1:
                 return self.value_of(f.s(st["args"][0]))
+            if st["args"] and st.get("t", "").startswith(("std::unique_ptr<", "std::shared_ptr<")):
+                return self.value_of(f.s(st["args"][0]))      # smart pointer built from (pointer, deleter)
             return "obj:" + st["id"]
         if k in CALLS:
             fq = callee_fq(st)
@@ -134,6 +136,10 @@ class TokenFlow:
             if fq == "std::exchange":
                 # value computed in step()
                 return self.val.get("call:" + st["id"])
+            if k == "CXXMemberCallExpr" and (st.get("callee") or {}).get("name") in ("get", "release"):
+                o = f.s(st["obj"])
+                if o is not None and o.get("t", "").replace("const ", "").startswith(("std::unique_ptr<", "std::shared_ptr<")):
+                    return self.value_of(o)
             return self.val.get("call:" + st["id"], "call:" + st["id"])
         p = path(f, st)
         if p is not None:
